@@ -73,7 +73,8 @@ def gen_history(rng):
         "imf": PowerLawIMF([0.1, 0.5, 1.0, 100], [-0.5, -1.3, -2.5], N0=5e5),
         "imf1": PowerLawIMF([0.1, 0.5, 1.0, 100], [-0.5, -1.3, -2.5]),          # own N0 = 1
         "nbins": [3, 3, 8], "nbins_d": {"MS": [3, 3, 8], "WD": 4, "BH": 5}, "nbins_d2": {"MS": 12, "WD": 3, "NS": 1, "BH": 4},
-        "tout": np.array([3000.0, 12000.0]), "tout1": [9000.0],
+        "tout": np.array([3000.0, 12000.0]), "tout1": [9000.0], "tout_u": np.array([12000.0, 3000.0, 7000.0]),      # ages in the caller's own order
+        "fbh_u": np.array([0.001, 0.002, 0.0015]),
         "fbh": np.array([0.06, 0.08]), "fbh_ok": np.array([0.001, 0.002]), "breaks": [0.1, 0.5, 1.0, 100.0],
     }
     calls = []
@@ -100,7 +101,7 @@ def gen_history(rng):
                 args.update(WD_method="linear", WD_kwargs={"$h": rng.choice(["d_wd", "d_wd2"])})
         elif k == "EvolvedMF":
             args = dict(IMF={"$h": rng.choice(["imf", "imf1"])}, nbins={"$h": rng.choice(["nbins", "nbins", "nbins_d", "nbins_d2"])}, FeH=feh,
-                        tout={"$h": rng.choice(["tout", "tout1"])},
+                        tout={"$h": rng.choice(["tout", "tout1", "tout_u"])},
                         esc_rate=rng.choice([0, -10.0]), N0=rng.choice([5e5, 2e5]), BH_IFMR_kwargs=rng.choice([{"$h": "d_empty"}, None]),
                         binning_breaks=rng.choice([{"$h": "breaks"}, None]), BH_ret_dyn=rng.choice([1.0, 0.7]))
             if rng.random() < 0.5:
@@ -109,8 +110,9 @@ def gen_history(rng):
                 args.update(WD_IFMR_method="linear", WD_IFMR_kwargs={"$h": rng.choice(["d_wd", "d_wd2"])})
         elif k == "EvolvedMFWithBH":
             two = rng.random() < 0.7
-            args = dict(IMF={"$h": "imf"}, nbins={"$h": "nbins"}, FeH=feh, tout={"$h": "tout" if two else "tout1"}, esc_rate=0,
-                        f_BH=({"$h": rng.choice(["fbh", "fbh_ok"])} if two else 0.001), N0=5e5, strict_BH_target=False,
+            three = rng.random() < 0.3
+            args = dict(IMF={"$h": "imf"}, nbins={"$h": "nbins"}, FeH=feh, tout={"$h": "tout_u" if three else "tout" if two else "tout1"}, esc_rate=0,
+                        f_BH=({"$h": "fbh_u"} if three else {"$h": rng.choice(["fbh", "fbh_ok"])} if two else 0.001), N0=5e5, strict_BH_target=False,
                         natal_kicks=rng.choice([True, False]), vesc=rng.choice([30, 90]), BH_IFMR_kwargs=rng.choice([{"$h": "d_empty"}, None]))
         else:
             args = dict(IMF={"$h": rng.choice(["imf", "imf", "imf1"])}, nbins={"$h": rng.choice(["nbins", "nbins", "nbins_d"])}, FeH=feh, natal_kicks=False)
